@@ -4,7 +4,7 @@
    a sample of every run (the in-kernel sample), so the extraction itself is checked. *)
 From Coq Require Import List Ascii String Bool Arith NArith ZArith.
 Require Import Show.
-Require V1 V5 V6 V3 V11 A1 D3 M6 M6b GS R2 AR AR2 AR3 CL TS3 CX SchemaDefs Schema_gen H12 H13 S11 D16 DEB.
+Require V1 V5 V6 V3 V11 A1 D3 M6 M6b GS R2 AR AR2 AR3 CL TS3 CX SchemaDefs Schema_gen H12 H13 S11 D16 DEB U20.
 Import ListNotations.
 Open Scope string_scope.
 Open Scope list_scope.
@@ -487,6 +487,38 @@ Definition run_debpkg (op : string) (a : list str) : option str :=
           end)
   else None.
 
+(* ---- upload Copy / Move / Remove: C20 (the OS is the fault oracle: the driver says which primitive call fails) ---- *)
+Definition SRC : str := lit "S".
+Definition DST : str := lit "D".
+Fixpoint fs_of_args (a : list str) : U20.fsys :=
+  match a with d :: n :: c :: r => ((d, n), c) :: fs_of_args r | _ => [] end.
+Definition show_event (ev : U20.event) : str :=
+  let e2 (t : string) (e : U20.entry) := lit t ++ hx (fst e) ++ lit "/" ++ hx (snd e) in
+  match ev with
+  | U20.EvCreate e => e2 "c:" e | U20.EvDone e => e2 "w:" e | U20.EvRemove e => e2 "d:" e
+  | U20.EvRename a b => e2 "m:" a ++ lit ">" ++ hx (fst b) ++ lit "/" ++ hx (snd b)
+  end.
+Definition show_fs (f : U20.fsys) : str :=
+  show_list (fun kv => lit "( " ++ hx (fst kv) ++ sp1 ++ hx (snd kv) ++ lit " )")
+            (sort_args (map (fun kv => (fst (fst kv) ++ lit "/" ++ snd (fst kv), snd kv)) f)).
+Definition run_upload (op : string) (a : list str) : option str :=
+  let g n := nth_arg n a in
+  if op =? "upload" then
+    (* operation, control file name, failing primitive call (number, or "-"), number n of listed names, the names,
+       then the initial file system as (dir, name, content) triples *)
+    let n := arg_nat (g 3) in
+    let listed := firstn n (skipn 4 a) in
+    let fs0 := fs_of_args (skipn (4 + n) a) in
+    let fault := fun t : nat => if D3.seq (g 2) (lit "-") then false else Nat.eqb t (arg_nat (g 2)) in
+    let h := {| U20.h_dir := SRC; U20.h_file := g 1; U20.h_listed := listed |} in
+    let x0 := {| U20.fs := fs0; U20.log := []; U20.tick := 0 |} in
+    let '(x, ok) :=
+      if D3.seq (g 0) (lit "copy") then U20.do_copy fault h DST x0
+      else if D3.seq (g 0) (lit "move") then U20.do_move fault h DST x0
+      else U20.do_remove fault h x0 in
+    Some (unwords [if ok then lit "ok" else lit "err"; show_fs (U20.fs x); show_list show_event (U20.log x)])
+  else None.
+
 Definition run (op : string) (hexargs : list str) : str :=
   let a := map unhex hexargs in
   match run_version op a with Some r => r | None =>
@@ -499,4 +531,5 @@ Definition run (op : string) (hexargs : list str) : str :=
   match run_hash op a with Some r => r | None =>
   match run_clearsign op a with Some r => r | None =>
   match run_debpkg op a with Some r => r | None =>
-  lit "unknown-op" end end end end end end end end end end.
+  match run_upload op a with Some r => r | None =>
+  lit "unknown-op" end end end end end end end end end end end.
